@@ -60,6 +60,10 @@ def extra(report, env):
     consumers(report, env, rng)
 
 
+class Stamp(datetime.datetime):
+    """ a datetime subclass, as pandas.Timestamp and friends are """
+
+
 def consumers(report, env, rng):
     """ C13's last sentence end to end: +, -, DATEVALUE, N, DAYS and the six comparison operators see the serial of the statement """
     from pyvc import e2e
@@ -74,12 +78,17 @@ def consumers(report, env, rng):
     def note(text, binds, detail):
         if len(fails) < 5:
             fails.append({'formula': text, 'bindings': binds, 'detail': detail})
-    for _ in range(150 if env['tier'] == 'quick' else 3000):
+    for _it in range(150 if env['tier'] == 'quick' else 3000):
         # time of day a multiple of 1/8 day: its serial is an exact float, comparisons with it are exact
         d = datetime.datetime(1900, 3, 1) + datetime.timedelta(days=rng.randrange(0, 2957000), hours=rng.choice([0, 0, 3, 6, 12, 18, 21]))
         e = d + datetime.timedelta(days=rng.randrange(0, 400), hours=rng.choice([0, 6, 12]))
         s, se = serial(d), serial(e)
         binds = {'d': d.isoformat(), 'e': e.isoformat()}
+        if _it % 3 == 2:
+            # a date-time handed over as an instance of a datetime subclass (what data libraries return) is a date-time like any other
+            d = Stamp(d.year, d.month, d.day, d.hour, d.minute, d.second)
+            e = Stamp(e.year, e.month, e.day, e.hour, e.minute, e.second)
+            binds['subclass'] = True
         p.set_variable('d', d)
         p.set_variable('e', e)
         n = rng.choice([0, 1, 30, 365, 0.25, 1.5, rng.randrange(0, 1000)])
